@@ -11,7 +11,7 @@ open Model.Handshake
 -- one step ---------------------------------------------------------------------------------------------------
 
 /-- A step that continues either absorbed a tolerated event without leaving the phase, or consumed a message the
-    phase accepts (`next`). -/
+    phase accepts (`next`), which also clears the warning-alert count. -/
 theorem step_cont (c : Cfg) (s s' : State) (m : Msg) (h : step c s m = .cont s') :
     (tolerated m = true ∧ s'.phase = s.phase) ∨
     (tolerated m = false ∧ next c s.phase m = some (some s'.phase) ∧ s'.warn = 0) := by
@@ -21,6 +21,547 @@ theorem step_cont (c : Cfg) (s s' : State) (m : Msg) (h : step c s m = .cont s')
     | (simp at h; done)
     | (injection h with h; subst h; simp_all [tolerated]; done)
     | skip
-  all_goals sorry
+
+/-- A step that completes the handshake consumed the last message of the flight. -/
+theorem step_done (c : Cfg) (s : State) (m : Msg) (h : step c s m = .done) :
+    tolerated m = false ∧ next c s.phase m = some none := by
+  cases m <;> simp only [step] at h <;> (try split at h) <;> (try split at h) <;> (try split at h) <;>
+    first
+    | (simp at h; done)
+    | (simp_all [tolerated]; done)
+    | skip
+
+-- the accepted language --------------------------------------------------------------------------------------
+
+theorem suffixes_ite (c : Cfg) (b : Prop) [Decidable b] (p q : Phase) :
+    suffixes c (if b then p else q) = if b then suffixes c p else suffixes c q := by split <;> rfl
+
+/-- `suffixes` is closed under the transitions of `next` … -/
+theorem next_suffix (c : Cfg) (p p' : Phase) (m : Msg) (h : next c p m = some (some p')) (r : List Msg)
+    (hr : r ∈ suffixes c p') : m :: r ∈ suffixes c p := by
+  cases p <;> cases m <;> simp only [next] at h <;> (try (split at h)) <;> (try (simp at h; done)) <;>
+    (simp only [Option.some.injEq] at h; subst h) <;>
+    (try simp only [afterHelloDone, suffixes_ite] at hr) <;> (simp only [suffixes] at hr ⊢) <;>
+    (simp_all [sHelloL, sCertL, sKeyExchangeL, sCertVerifyL, sCCSL, sNextProtoL, sFinishedL, cHelloL, cCertL,
+      cSKXL, cAfterCertL, cAfterStatusL, cAfterSKXL, cDoneNoSKXL, cHelloDoneL, cPostL, cTicketL, cCCSL, cFinishedL, pre])
+
+/-- … and contains the one-message flights that complete the handshake. -/
+theorem next_last (c : Cfg) (p : Phase) (m : Msg) (h : next c p m = some none) : [m] ∈ suffixes c p := by
+  cases p <;> cases m <;> simp only [next] at h <;> (try (split at h)) <;> (try (simp at h; done)) <;>
+    simp [suffixes, sFinishedL, cFinishedL]
+
+theorem accepts_suffix (c : Cfg) (l : List Msg) : ∀ s, accepts c s l = true →
+    l.filter (fun m => !tolerated m) ∈ suffixes c s.phase := by
+  induction l with
+  | nil => intro s h; simp [accepts] at h
+  | cons m ms ih =>
+    intro s h
+    simp only [accepts] at h
+    cases hs : step c s m with
+    | cont s' =>
+      rw [hs] at h
+      have := ih s' h
+      rcases step_cont c s s' m hs with ⟨ht, hp⟩ | ⟨ht, hn, _⟩
+      · simp only [List.filter_cons, ht, Bool.not_true]; rw [← hp]; exact this
+      · simp only [List.filter_cons, ht, Bool.not_false]
+        exact next_suffix c s.phase s'.phase m hn _ this
+    | done =>
+      rw [hs] at h
+      obtain ⟨ht, hn⟩ := step_done c s m hs
+      have : ms = [] := by simpa using h
+      subst this
+      simp only [List.filter_cons, ht, Bool.not_false, List.filter_nil]
+      exact next_last c s.phase m hn
+    | error a => rw [hs] at h; simp at h
+
+/-- T1 `done_only_expected`: for every role and configuration and EVERY finite sequence of events, if the
+    handshake completes with the last event of the sequence, then the sequence — warning alerts, empty handshake
+    records and record-boundary artefacts erased — is one of the flights `expected c` (listed per role below).
+    So a peer that sends messages out of order, repeated, omitted, of another type, or application data /
+    ChangeCipherSpec at the wrong moment never gets completion: every such sequence ends in an error. -/
+theorem done_only_expected (c : Cfg) (l : List Msg) (h : accepts c (init c) l = true) :
+    l.filter (fun m => !tolerated m) ∈ expected c :=
+  accepts_suffix c l (init c) h
+
+/-- `run` reports completion exactly when some prefix of the sequence is accepted (what follows is not read
+    by the handshake any more). -/
+theorem run_done_iff (c : Cfg) (l : List Msg) : ∀ s, run c s l = .done ↔
+    ∃ pre post, l = pre ++ post ∧ accepts c s pre = true := by
+  induction l with
+  | nil => intro s; simp [run, accepts]
+  | cons m ms ih =>
+    intro s
+    constructor
+    · intro h
+      simp only [run] at h
+      cases hs : step c s m with
+      | cont s' =>
+        rw [hs] at h
+        obtain ⟨pre, post, e, ha⟩ := (ih s').mp h
+        exact ⟨m :: pre, post, by simp [e], by simp [accepts, hs, ha]⟩
+      | done => exact ⟨[m], ms, rfl, by simp [accepts, hs]⟩
+      | error a => rw [hs] at h; simp at h
+    · rintro ⟨pre, post, e, ha⟩
+      cases pre with
+      | nil => simp [accepts] at ha
+      | cons x xs =>
+        simp only [List.cons_append, List.cons.injEq] at e
+        obtain ⟨rfl, e⟩ := e
+        simp only [accepts] at ha
+        simp only [run]
+        cases hs : step c s m with
+        | cont s' => rw [hs] at ha; exact (ih s').mpr ⟨xs, post, e, ha⟩
+        | done => rfl
+        | error a => rw [hs] at ha; simp at ha
+
+/-- Completion reported by `run` ⇒ the events read until then form an expected flight. -/
+theorem run_done_expected (c : Cfg) (l : List Msg) (h : run c (init c) l = .done) :
+    ∃ pre post, l = pre ++ post ∧ pre.filter (fun m => !tolerated m) ∈ expected c := by
+  obtain ⟨pre, post, e, ha⟩ := (run_done_iff c l (init c)).mp h
+  exact ⟨pre, post, e, done_only_expected c pre ha⟩
+
+-- the expected flights, role by role (`Cfg` fields: server gm resume reqCert peerCert ticket ocsp skx npn) ------
+
+def gmServer (reqCert resume : Bool) : Cfg := ⟨true, true, resume, reqCert, reqCert, false, false, true, false⟩
+def gmClient (ticket resume : Bool) : Cfg := ⟨false, true, resume, false, false, ticket, false, true, false⟩
+def tlsServer (reqCert resume : Bool) : Cfg := ⟨true, false, resume, reqCert, reqCert, false, false, true, false⟩
+def tlsClient (ticket resume : Bool) : Cfg := ⟨false, false, resume, false, false, ticket, false, true, false⟩
+
+theorem expected_gmServer_full : expected (gmServer false false) =
+    [[.clientHello, .clientKeyExchange, .ccs, .finished]] := by decide
+theorem expected_gmServer_clientCert : expected (gmServer true false) =
+    [[.clientHello, .certificate, .clientKeyExchange, .certificateVerify, .ccs, .finished]] := by decide
+theorem expected_gmServer_resume (b : Bool) : expected (gmServer b true) = [[.clientHello, .ccs, .finished]] := by
+  cases b <;> decide
+theorem expected_gmClient_full : expected (gmClient false false) =
+    [[.serverHello, .certificate, .serverKeyExchange, .certificateRequest, .serverHelloDone, .ccs, .finished],
+     [.serverHello, .certificate, .serverKeyExchange, .serverHelloDone, .ccs, .finished]] := by decide
+theorem expected_gmClient_ticket : expected (gmClient true false) =
+    [[.serverHello, .certificate, .serverKeyExchange, .certificateRequest, .serverHelloDone, .newSessionTicket, .ccs, .finished],
+     [.serverHello, .certificate, .serverKeyExchange, .serverHelloDone, .newSessionTicket, .ccs, .finished]] := by decide
+theorem expected_gmClient_resume : expected (gmClient false true) = [[.serverHello, .ccs, .finished]] := by decide
+theorem expected_gmClient_resume_ticket : expected (gmClient true true) =
+    [[.serverHello, .newSessionTicket, .ccs, .finished]] := by decide
+theorem expected_tlsServer_full : expected (tlsServer false false) =
+    [[.clientHello, .clientKeyExchange, .ccs, .finished]] := by decide
+theorem expected_tlsServer_clientCert : expected (tlsServer true false) =
+    [[.clientHello, .certificate, .clientKeyExchange, .certificateVerify, .ccs, .finished]] := by decide
+/-- TLS client, ECDHE suite, no OCSP stapling negotiated: ServerKeyExchange is needed after all (its absence is an
+    error at ServerHelloDone), CertificateRequest is optional -/
+theorem expected_tlsClient_full : expected (tlsClient false false) =
+    [[.serverHello, .certificate, .serverKeyExchange, .certificateRequest, .serverHelloDone, .ccs, .finished],
+     [.serverHello, .certificate, .serverKeyExchange, .serverHelloDone, .ccs, .finished]] := by decide
+theorem expected_tlsClient_resume : expected (tlsClient false true) = [[.serverHello, .ccs, .finished]] := by decide
+
+/-- on the GMSSL paths and on every server path the flight is unique up to the optional CertificateRequest -/
+theorem expected_server_unique (c : Cfg) (h : c.server = true) : (expected c).length = 1 := by
+  cases c with
+  | mk server gm resume reqCert peerCert ticket ocsp skx npn =>
+    subst h
+    cases resume <;> cases reqCert <;> cases peerCert <;> cases npn <;> rfl
+
+-- non-vacuity: the honest flights complete -------------------------------------------------------------------
+
+/-- a run from the initial state -/
+def runInit (c : Cfg) (l : List Msg) : Result := run c (init c) l
+
+example : runInit (gmServer false false) [.clientHello, .clientKeyExchange, .ccs, .finished] = .done := by decide
+example : runInit (gmServer true false)
+    [.clientHello, .certificate, .clientKeyExchange, .certificateVerify, .ccs, .finished] = .done := by decide
+example : runInit (gmServer false true) [.clientHello, .ccs, .finished] = .done := by decide
+example : runInit (gmClient false false)
+    [.serverHello, .certificate, .serverKeyExchange, .serverHelloDone, .ccs, .finished] = .done := by decide
+example : runInit (gmClient true false)
+    [.serverHello, .certificate, .serverKeyExchange, .certificateRequest, .serverHelloDone, .newSessionTicket, .ccs, .finished] = .done := by
+  decide
+example : runInit (gmClient false true) [.serverHello, .ccs, .finished] = .done := by decide
+example : runInit (tlsServer true false)
+    [.clientHello, .certificate, .clientKeyExchange, .certificateVerify, .ccs, .finished] = .done := by decide
+example : runInit (tlsClient false false)
+    [.serverHello, .certificate, .serverKeyExchange, .serverHelloDone, .ccs, .finished] = .done := by decide
+/-- tolerated events do not disturb it: five warning alerts, an empty record, a message in two records -/
+example : runInit (gmClient false false)
+    [.warningAlert, .warningAlert, .warningAlert, .warningAlert, .warningAlert, .serverHello, .emptyHandshake, .fragment,
+     .certificate, .serverKeyExchange, .warningAlert, .serverHelloDone, .ccs, .finished] = .done := by decide
+/-- and misbehaviour does: a repeated message, a sixth warning, an early ChangeCipherSpec, a missing message,
+    ChangeCipherSpec in the middle of a message, a Finished that does not verify -/
+example : runInit (gmClient false false) [.serverHello, .certificate, .certificate] = .error .unexpectedMessage := by decide
+example : runInit (gmServer false false) (List.replicate 6 .warningAlert) = .error .unexpectedMessage := by decide
+example : runInit (gmServer false false) [.clientHello, .ccs] = .error .unexpectedMessage := by decide
+example : runInit (gmClient false false) [.serverHello, .certificate, .serverHelloDone] = .error .unexpectedMessage := by decide
+example : runInit (gmServer false false) [.clientHello, .clientKeyExchange, .trailing, .ccs] = .error .unexpectedMessage := by
+  decide
+example : runInit (gmServer false false) [.clientHello, .clientKeyExchange, .ccs, .finishedBad] = .error .handshakeFailure := by
+  decide
+
+-- end of stream ------------------------------------------------------------------------------------------------
+
+/-- In every state, the end of the stream is an error (no alert is written): `readRecord` returns the read error. -/
+theorem eof_is_error (c : Cfg) (s : State) : step c s .eof = .error .none := rfl
+
+/-- T1 `no_wait_after_eof`: whatever was received before, once the stream has ended the endpoint is not waiting:
+    the handshake has completed earlier or it returns an error. -/
+theorem no_wait_after_eof (c : Cfg) (l : List Msg) : ∀ s s', run c s (l ++ [.eof]) ≠ .cont s' := by
+  induction l with
+  | nil => intro s s' h; simp [run, step] at h
+  | cons m ms ih =>
+    intro s s' h
+    simp only [List.cons_append, run] at h
+    cases hs : step c s m with
+    | cont t => rw [hs] at h; exact ih t s' h
+    | done => rw [hs] at h; simp at h
+    | error a => rw [hs] at h; simp at h
+
+/-- the same for the other ways a peer ends the conversation: close_notify and a fatal alert -/
+theorem closing_alerts_are_errors (c : Cfg) (s : State) :
+    step c s .closeNotify = .error .none ∧ step c s .fatalAlert = .error .none := ⟨rfl, rfl⟩
+
+-- unexpected messages --------------------------------------------------------------------------------------------
+
+/-- T1 `unexpected_is_error`: in every state, every event other than the messages `expectedNext` lists for the
+    phase (one type, two where CertificateRequest is optional, up to four in the TLS client after Certificate) and
+    the tolerated ones is answered with an error. -/
+theorem unexpected_is_error (c : Cfg) (s : State) (m : Msg) (hm : m ∉ expectedNext c s.phase)
+    (ht : tolerated m = false) : ∃ a, step c s m = .error a := by
+  cases hs : step c s m with
+  | error a => exact ⟨a, rfl⟩
+  | cont s' =>
+    exfalso
+    rcases step_cont c s s' m hs with ⟨h, _⟩ | ⟨_, hn, _⟩
+    · rw [ht] at h; cases h
+    · revert hm hn
+      cases s.phase <;> cases m <;> simp [next, expectedNext] <;> (try split) <;> simp_all
+  | done =>
+    exfalso
+    obtain ⟨_, hn⟩ := step_done c s m hs
+    revert hm hn
+    cases s.phase <;> cases m <;> simp [next, expectedNext] <;> (try split) <;> simp_all
+
+/-- conversely the listed messages are taken (ChangeCipherSpec: unless part of a message is buffered) -/
+theorem expected_is_taken (c : Cfg) (s : State) (m : Msg) (hm : m ∈ expectedNext c s.phase)
+    (hp : m = .ccs → s.pend = false) : (∃ s', step c s m = .cont s') ∨ step c s m = .done := by
+  cases s with
+  | mk phase warn pend =>
+    cases phase <;> cases m <;> simp [expectedNext] at hm <;>
+      simp_all [step, next, wantsCCS]
+
+/-- the cases of `unexpected_is_error` with their alerts, for a phase that awaits a handshake message -/
+theorem unexpected_cases (c : Cfg) (s : State) (h : wantsCCS s.phase = false) :
+    step c s .appData = .error .unexpectedMessage ∧ step c s .ccs = .error .unexpectedMessage ∧
+    step c s .badCcs = .error .unexpectedMessage ∧ step c s .unknownType = .error .unexpectedMessage ∧
+    step c s .malformed = .error .unexpectedMessage ∧ step c s .helloRequest = .error .unexpectedMessage ∧
+    step c s .oversizedMsg = .error .internalError ∧ step c s .oversizedRecord = .error .recordOverflow ∧
+    step c s .unknownRecord = .error .unexpectedMessage ∧ step c s .badAlert = .error .unexpectedMessage := by
+  cases s with
+  | mk phase warn pend =>
+    cases phase <;> simp_all [step, next, wantsCCS, rejectAlert]
+
+/-- … and for a phase that awaits ChangeCipherSpec: every handshake record is refused, whatever it carries, and
+    ChangeCipherSpec itself is refused while part of a handshake message is buffered -/
+theorem unexpected_cases_ccs (c : Cfg) (s : State) (m : Msg) (h : wantsCCS s.phase = true)
+    (hm : m ∈ [Msg.helloRequest, .clientHello, .serverHello, .certificate, .serverKeyExchange, .certificateRequest,
+      .serverHelloDone, .certificateVerify, .clientKeyExchange, .finished, .newSessionTicket, .certificateStatus,
+      .nextProtocol, .unknownType, .finishedBad, .malformed, .oversizedMsg, .fragment, .emptyHandshake]) :
+    step c s m = .error (hsAtCCSAlert c) ∧ step c s .appData = .error .unexpectedMessage ∧
+    (s.pend = true → step c s .ccs = .error .unexpectedMessage) := by
+  cases s with
+  | mk phase warn pend =>
+    simp only [List.mem_cons, List.not_mem_nil, or_false] at hm
+    rcases hm with h | h | h | h | h | h | h | h | h | h | h | h | h | h | h | h | h | h | h <;> subst h <;>
+      simp_all [step]
+
+theorem expectedNext_length (c : Cfg) (p : Phase) : (expectedNext c p).length ≤ 4 := by
+  cases p <;> simp [expectedNext] <;> (repeat' split) <;> simp
+
+/-- GMSSL endpoints and all servers never reach the TLS client's optional-message phases: at most two types -/
+theorem expectedNext_length_gm (c : Cfg) (p : Phase)
+    (h : p ≠ .cAfterCert ∧ p ≠ .cAfterStatus) : (expectedNext c p).length ≤ 2 := by
+  cases p <;> simp_all [expectedNext] <;> (repeat' split) <;> simp
+
+-- progress ---------------------------------------------------------------------------------------------------------
+
+/-- every message `next` accepts moves to a later phase -/
+theorem next_rank (c : Cfg) (p p' : Phase) (m : Msg) (h : next c p m = some (some p')) : rank p < rank p' := by
+  cases p <;> cases m <;> simp only [next] at h <;> (try (split at h)) <;> (try (simp at h; done)) <;>
+    (simp only [Option.some.injEq] at h; subst h) <;> (try simp only [afterHelloDone]) <;> (repeat' split) <;> simp [rank]
+
+theorem rank_le (p : Phase) : rank p ≤ maxRank := by cases p <;> simp [rank, maxRank]
+
+/-- T1 `progress`: every event is an error, completes the handshake, moves to a later phase (clearing the
+    warning count), or is one of four tolerated events that stay in the phase — and of these a warning alert
+    raises a counter that may not pass `maxWarnAlertCount` = 5. -/
+theorem progress (c : Cfg) (s : State) (m : Msg) :
+    (∃ a, step c s m = .error a) ∨ step c s m = .done ∨
+    (∃ s', step c s m = .cont s' ∧ rank s.phase < rank s'.phase ∧ s'.warn = 0) ∨
+    (m = .warningAlert ∧ s.warn < maxWarnAlertCount ∧ step c s m = .cont { s with warn := s.warn + 1 }) ∨
+    ((m = .emptyHandshake ∨ m = .fragment ∨ m = .trailing) ∧ ∃ s', step c s m = .cont s' ∧ s'.phase = s.phase ∧ s'.warn ≤ s.warn) := by
+  cases hs : step c s m with
+  | error a => exact Or.inl ⟨a, rfl⟩
+  | done => exact Or.inr (Or.inl rfl)
+  | cont s' =>
+    right; right
+    rcases step_cont c s s' m hs with ⟨ht, hp⟩ | ⟨_, hn, hw⟩
+    · right
+      cases m <;> simp [tolerated] at ht
+      · -- fragment
+        right; refine ⟨by simp, s', rfl, hp, ?_⟩
+        simp only [step] at hs; split at hs <;> simp at hs; subst hs; simp
+      · -- trailing
+        right; refine ⟨by simp, s', rfl, hp, ?_⟩
+        simp only [step] at hs; simp at hs; subst hs; simp
+      · -- emptyHandshake
+        right; refine ⟨by simp, s', rfl, hp, ?_⟩
+        simp only [step] at hs; split at hs <;> simp at hs; subst hs; simp
+      · -- warningAlert
+        left
+        simp only [step] at hs
+        split at hs
+        · simp at hs
+        · rename_i hlt
+          simp only [Result.cont.injEq] at hs
+          exact ⟨rfl, by simp only [maxWarnAlertCount] at hlt ⊢; omega, by rw [hs]⟩
+    · left; exact ⟨s', rfl, next_rank c s.phase s'.phase m hn, hw⟩
+
+theorem warnings_fatal (c : Cfg) (n : Nat) : ∀ s : State, maxWarnAlertCount < s.warn + (n + 1) →
+    run c s (List.replicate (n + 1) .warningAlert) = .error .unexpectedMessage := by
+  induction n with
+  | zero => intro s h; simp only [List.replicate, run, step]; rw [if_pos (by simpa using h)]
+  | succ n ih =>
+    intro s h
+    rw [List.replicate_succ]
+    by_cases hw : s.warn + 1 > maxWarnAlertCount
+    · simp only [run, step, if_pos hw]
+    · simp only [run, step, if_neg hw]
+      apply ih
+      simp only [maxWarnAlertCount] at h hw ⊢
+      omega
+
+/-- the sixth consecutive warning alert is fatal, in every state -/
+theorem six_warnings_fatal (c : Cfg) (s : State) :
+    run c s (List.replicate 6 .warningAlert) = .error .unexpectedMessage :=
+  warnings_fatal c 5 s (by simp only [maxWarnAlertCount]; omega)
+
+def stall (m : Msg) : Bool := m == .emptyHandshake || m == .fragment || m == .trailing
+
+/-- `bounded_stall`: a sequence of events without empty handshake records and record-boundary artefacts that
+    leaves the endpoint still reading is short: each step raises `6·rank + warn`, which never exceeds
+    6·maxRank + 5.  No stream of alerts keeps an endpoint busy. -/
+theorem bounded_stall (c : Cfg) (l : List Msg) : ∀ s s', s.warn ≤ maxWarnAlertCount →
+    (∀ m ∈ l, stall m = false) → run c s l = .cont s' →
+    l.length + (6 * rank s.phase + s.warn) ≤ 6 * rank s'.phase + s'.warn ∧ s'.warn ≤ maxWarnAlertCount := by
+  induction l with
+  | nil => intro s s' hw _ h; simp only [run, Result.cont.injEq] at h; subst h; simp; exact hw
+  | cons m ms ih =>
+    intro s s' hw hl h
+    simp only [run] at h
+    have hm : stall m = false := hl m (by simp)
+    have hms : ∀ x ∈ ms, stall x = false := fun x hx => hl x (by simp [hx])
+    cases hs : step c s m with
+    | error a => rw [hs] at h; simp at h
+    | done => rw [hs] at h; simp at h
+    | cont t =>
+      rw [hs] at h
+      rcases progress c s m with ⟨a, e⟩ | e | ⟨t', e, hr, hw0⟩ | ⟨_, hlt, e⟩ | ⟨hst, _⟩
+      · rw [hs] at e; simp at e
+      · rw [hs] at e; simp at e
+      · rw [hs] at e; simp only [Result.cont.injEq] at e; subst e
+        have := ih t s' (by rw [hw0]; simp [maxWarnAlertCount]) hms h
+        simp only [maxWarnAlertCount] at hw this ⊢
+        simp only [List.length_cons]; omega
+      · rw [hs] at e; simp only [Result.cont.injEq] at e; subst e
+        have := ih _ s' (by simp only [maxWarnAlertCount] at hlt ⊢; omega) hms h
+        simp only [maxWarnAlertCount] at hw this ⊢
+        simp only [List.length_cons]; omega
+      · rcases hst with e | e | e <;> subst e <;> simp [stall] at hm
+
+theorem stall_bound (c : Cfg) (l : List Msg) (s' : State) (hl : ∀ m ∈ l, stall m = false)
+    (h : run c (init c) l = .cont s') : l.length ≤ 6 * maxRank + maxWarnAlertCount := by
+  have := bounded_stall c l (init c) s' (by simp [init, maxWarnAlertCount]) hl h
+  have hr := rank_le s'.phase
+  simp only [maxWarnAlertCount, maxRank] at *
+  omega
+
+/-- What the code does NOT bound: empty handshake records are absorbed by `readHandshake`'s loop without any
+    counter (this Go version has no `maxUselessRecords`), so an endless stream of them keeps a handshake-phase
+    endpoint reading — on input that has not ended. -/
+theorem empty_records_unbounded (c : Cfg) (s : State) (h : wantsCCS s.phase = false) (n : Nat) :
+    run c s (List.replicate n .emptyHandshake) = .cont s := by
+  induction n with
+  | zero => rfl
+  | succ n ih => simp only [List.replicate, run, step, h]; exact ih
+
+-- version dispatch -----------------------------------------------------------------------------------------------
+
+/-- T1 `version_dispatch`, all values at once (`v` ranges over the natural numbers, in particular 0..65535). -/
+theorem mv_low (v : Nat) (h : v < 0x0101) : mutualVersion v = none := by
+  unfold mutualVersion versionGMSSL; rw [if_pos h]
+theorem mv_gm : mutualVersion 0x0101 = some 0x0101 := by decide
+theorem mv_gap (v : Nat) (h1 : 0x0101 < v) (h2 : v < 0x0300) : mutualVersion v = none := by
+  unfold mutualVersion versionGMSSL versionSSL30; rw [if_neg (by omega), if_pos ⟨h1, h2⟩]
+theorem mv_tls (v : Nat) (h1 : 0x0300 ≤ v) (h2 : v ≤ 0x0303) : mutualVersion v = some v := by
+  unfold mutualVersion versionGMSSL versionSSL30 versionTLS12
+  rw [if_neg (by omega), if_neg (by omega), if_neg (by omega)]
+theorem mv_high (v : Nat) (h : 0x0303 < v) : mutualVersion v = some 0x0303 := by
+  unfold mutualVersion versionGMSSL versionSSL30 versionTLS12
+  rw [if_neg (by omega), if_neg (by omega), if_pos (by omega)]
+
+theorem ranges (v : Nat) : v < 0x0101 ∨ v = 0x0101 ∨ (0x0101 < v ∧ v < 0x0300) ∨ (0x0300 ≤ v ∧ v ≤ 0x0303) ∨ 0x0303 < v := by omega
+
+/-- auto-switch mode: GMSSL code iff the version is exactly 0x0101; TLS code iff it is one of 0x0300..0x0303,
+    at that very version; everything else — including every value above 0x0303 — is rejected -/
+theorem dispatch_auto (v : Nat) :
+    dispatch .auto v =
+      if v = 0x0101 then .gm 0x0101 else if 0x0300 ≤ v ∧ v ≤ 0x0303 then .tls v else .reject := by
+  rcases ranges v with h | h | ⟨h1, h2⟩ | ⟨h1, h2⟩ | h
+  · have a : ¬ v = 0x0101 := by omega
+    have b : ¬ (0x0300 ≤ v ∧ v ≤ 0x0303) := by omega
+    simp [dispatch, versionGMSSL, versionSSL30, versionTLS12, a, b]
+  · subst h; decide
+  · have a : ¬ v = 0x0101 := by omega
+    have b : ¬ (0x0300 ≤ v ∧ v ≤ 0x0303) := by omega
+    simp [dispatch, versionGMSSL, versionSSL30, versionTLS12, a, b]
+  · have a : ¬ v = 0x0101 := by omega
+    simp [dispatch, versionGMSSL, versionSSL30, versionTLS12, a, h1, h2, mv_tls v h1 h2]
+  · have a : ¬ v = 0x0101 := by omega
+    have b : ¬ (0x0300 ≤ v ∧ v ≤ 0x0303) := by omega
+    simp [dispatch, versionGMSSL, versionSSL30, versionTLS12, a, b]
+
+/-- TLS-only mode: what `mutualVersion` admits is served by the TLS code: 0x0300..0x0303 as offered, anything
+    higher as TLS 1.2 — and 0x0101 as "version 0x0101" (the default `minVersion` is the GMSSL number). -/
+theorem dispatch_tlsOnly (v : Nat) :
+    dispatch .tlsOnly v =
+      if v = 0x0101 then .tls 0x0101 else if 0x0300 ≤ v ∧ v ≤ 0x0303 then .tls v
+      else if 0x0303 < v then .tls 0x0303 else .reject := by
+  rcases ranges v with h | h | ⟨h1, h2⟩ | ⟨h1, h2⟩ | h
+  · have a : ¬ v = 0x0101 := by omega
+    have b : ¬ (0x0300 ≤ v ∧ v ≤ 0x0303) := by omega
+    have d : ¬ 0x0303 < v := by omega
+    simp [dispatch, mv_low v h, a, b, d]
+  · subst h; decide
+  · have a : ¬ v = 0x0101 := by omega
+    have b : ¬ (0x0300 ≤ v ∧ v ≤ 0x0303) := by omega
+    have d : ¬ 0x0303 < v := by omega
+    simp [dispatch, mv_gap v h1 h2, a, b, d]
+  · have a : ¬ v = 0x0101 := by omega
+    simp [dispatch, mv_tls v h1 h2, a, h1, h2]
+  · have a : ¬ v = 0x0101 := by omega
+    have b : ¬ (0x0300 ≤ v ∧ v ≤ 0x0303) := by omega
+    simp [dispatch, mv_high v h, a, b, h]
+
+/-- GMSSL-only mode: the same versions are admitted, all served by the GMSSL code (a hello above 0x0101 gets a
+    ServerHello with a TLS version number and a GMSSL suite, which no conforming client continues). -/
+theorem dispatch_gmOnly (v : Nat) :
+    dispatch .gmOnly v =
+      if v = 0x0101 then .gm 0x0101 else if 0x0300 ≤ v ∧ v ≤ 0x0303 then .gm v
+      else if 0x0303 < v then .gm 0x0303 else .reject := by
+  rcases ranges v with h | h | ⟨h1, h2⟩ | ⟨h1, h2⟩ | h
+  · have a : ¬ v = 0x0101 := by omega
+    have b : ¬ (0x0300 ≤ v ∧ v ≤ 0x0303) := by omega
+    have d : ¬ 0x0303 < v := by omega
+    simp [dispatch, mv_low v h, a, b, d]
+  · subst h; decide
+  · have a : ¬ v = 0x0101 := by omega
+    have b : ¬ (0x0300 ≤ v ∧ v ≤ 0x0303) := by omega
+    have d : ¬ 0x0303 < v := by omega
+    simp [dispatch, mv_gap v h1 h2, a, b, d]
+  · have a : ¬ v = 0x0101 := by omega
+    simp [dispatch, mv_tls v h1 h2, a, h1, h2]
+  · have a : ¬ v = 0x0101 := by omega
+    have b : ¬ (0x0300 ≤ v ∧ v ≤ 0x0303) := by omega
+    simp [dispatch, mv_high v h, a, b, h]
+
+/-- Below GMSSL (0x0101) and strictly between GMSSL and SSL 3.0 nothing is accepted, in any mode. -/
+theorem dispatch_reject_low (mode : Mode) (v : Nat) (h : v < 0x0101 ∨ (0x0101 < v ∧ v < 0x0300)) :
+    dispatch mode v = .reject := by
+  cases mode
+  · rw [dispatch_gmOnly]; (repeat' split) <;> first | rfl | omega
+  · rw [dispatch_auto]; (repeat' split) <;> first | rfl | omega
+  · rw [dispatch_tlsOnly]; (repeat' split) <;> first | rfl | omega
+
+/-- at or above TLS 1.2 the TLS code (TLS-only mode) negotiates TLS 1.2; the auto-switch server takes exactly
+    0x0303 and rejects anything higher -/
+theorem dispatch_high (v : Nat) (h : 0x0303 ≤ v) :
+    dispatch .tlsOnly v = .tls 0x0303 ∧ (dispatch .auto v = if v = 0x0303 then .tls 0x0303 else .reject) := by
+  rw [dispatch_tlsOnly, dispatch_auto]
+  constructor <;> (repeat' split) <;> first | rfl | omega | (simp_all; done) | (simp_all; omega)
+
+/-- in every mode the connection version is one for which key derivation is defined (`prfForVersion`:
+    GMSSL, SSL 3.0, TLS 1.0–1.2): no ClientHello version reaches `panic("unknown version")` -/
+theorem dispatch_version_has_prf (mode : Mode) (v w : Nat) (h : dispatch mode v = .gm w ∨ dispatch mode v = .tls w) :
+    w = 0x0101 ∨ (0x0300 ≤ w ∧ w ≤ 0x0303) := by
+  cases mode
+  · rw [dispatch_gmOnly] at h; (repeat' split at h) <;> simp at h <;> omega
+  · rw [dispatch_auto] at h; (repeat' split at h) <;> simp at h <;> omega
+  · rw [dispatch_tlsOnly] at h; (repeat' split at h) <;> simp at h <;> omega
+
+/-- the GMSSL code is entered by the GMSSL version only where the two protocols share a port -/
+theorem auto_gm_iff (v w : Nat) : dispatch .auto v = .gm w ↔ v = 0x0101 ∧ w = 0x0101 := by
+  rw [dispatch_auto]; (repeat' split) <;> simp <;> omega
+
+-- the server's answer to a hello -----------------------------------------------------------------------------------
+
+theorem answerOn_no_compression (ok : Nat → Bool) (w v : Nat) (suites comps : List Nat)
+    (h : comps.contains 0 = false) : answerOn ok w v suites comps = .failure := by
+  unfold answerOn; rw [if_pos h]
+
+theorem answerOn_no_suite (ok : Nat → Bool) (w v : Nat) (suites comps : List Nat)
+    (h : ∀ s ∈ suites, ok s = false) : answerOn ok w v suites comps = .failure := by
+  have : suites.find? ok = none := by
+    rw [List.find?_eq_none]; intro x hx; rw [h x hx]; simp
+  unfold answerOn; rw [this]; split <;> rfl
+
+theorem answerOn_serverHello (ok : Nat → Bool) (w v w' s : Nat) (suites comps : List Nat)
+    (h : answerOn ok w v suites comps = .serverHello w' s) :
+    w' = w ∧ s ∈ suites ∧ ok s = true ∧ comps.contains 0 = true := by
+  unfold answerOn at h
+  by_cases hc : comps.contains 0 = false
+  · rw [if_pos hc] at h; cases h
+  · rw [if_neg hc] at h
+    cases hf : suites.find? ok with
+    | none => rw [hf] at h; cases h
+    | some x =>
+      rw [hf] at h
+      dsimp only at h
+      split at h
+      · cases h
+      · cases h
+        exact ⟨rfl, List.mem_of_find?_eq_some hf, List.find?_some hf, by simpa using hc⟩
+
+/-- unsupported version, compression or suites: the hello is refused before any ServerHello
+    (protocol_version, resp. handshake_failure) -/
+theorem hello_refused (mode : Mode) (e : Bool) (v : Nat) (suites comps : List Nat) :
+    (dispatch mode v = .reject → helloAnswer mode e v suites comps = .reject) ∧
+    (dispatch mode v ≠ .reject → comps.contains 0 = false → helloAnswer mode e v suites comps = .failure) ∧
+    (∀ w, dispatch mode v = .gm w → (∀ s ∈ suites, gmSuites.contains s = false) →
+        helloAnswer mode e v suites comps = .failure) ∧
+    (∀ w, dispatch mode v = .tls w → (∀ s ∈ suites, tlsSuiteOk w e s = false) →
+        helloAnswer mode e v suites comps = .failure) := by
+  refine ⟨fun h => ?_, fun h hc => ?_, fun w h hs => ?_, fun w h hs => ?_⟩
+  · unfold helloAnswer; rw [h]
+  · unfold helloAnswer
+    cases hd : dispatch mode v with
+    | reject => exact absurd hd h
+    | gm w => exact answerOn_no_compression _ _ _ _ _ hc
+    | tls w => exact answerOn_no_compression _ _ _ _ _ hc
+  · unfold helloAnswer; rw [h]; exact answerOn_no_suite _ _ _ _ _ hs
+  · unfold helloAnswer; rw [h]; exact answerOn_no_suite _ _ _ _ _ hs
+
+/-- a ServerHello always names a suite the client offered and that the serving code path supports, and is only
+    sent to a client that offered null compression -/
+theorem hello_suite_offered (mode : Mode) (e : Bool) (v w s : Nat) (suites comps : List Nat)
+    (h : helloAnswer mode e v suites comps = .serverHello w s) :
+    s ∈ suites ∧ comps.contains 0 = true ∧
+    ((dispatch mode v = .gm w ∧ gmSuites.contains s = true) ∨ (dispatch mode v = .tls w ∧ tlsSuiteOk w e s = true)) := by
+  unfold helloAnswer at h
+  cases hd : dispatch mode v with
+  | reject => rw [hd] at h; cases h
+  | gm w' =>
+    rw [hd] at h
+    obtain ⟨rfl, h1, h2, h3⟩ := answerOn_serverHello _ _ _ _ _ _ _ h
+    exact ⟨h1, h3, Or.inl ⟨rfl, h2⟩⟩
+  | tls w' =>
+    rw [hd] at h
+    obtain ⟨rfl, h1, h2, h3⟩ := answerOn_serverHello _ _ _ _ _ _ _ h
+    exact ⟨h1, h3, Or.inr ⟨rfl, h2⟩⟩
 
 end Props.C15
